@@ -32,18 +32,20 @@ let show_dir (fs : fsys) (d : (n list * n) list) (ref : (n list * n) list option
 
 (* ---- value-level traces ---- *)
 let st : (vstore * vstore) ref = ref (vinit N0 N0, vinit N0 N0)
-let res_str = function ROk -> "ok" | RNoBackup -> "nobackup" | RBusy -> "busy" | RNone -> "none" | RYes -> "1" | RNo -> "0" | RNoSrc -> "nosrc"
+let res_str = function ROk -> "ok" | RNoBackup -> "nobackup" | RBusy -> "busy" | RNone -> "none" | RYes -> "1" | RNo -> "0" | RNoSrc -> "nosrc" | RErr -> "err"
 let pad_hex w s = if String.length s >= w then s else String.make (w - String.length s) '0' ^ s
+let show_dirl l =
+    if l = [] then "-" else
+    String.concat "," (List.map (fun (nm, c) -> hex_of_bytes nm ^ "=" ^ pad_hex 10 (hex_of_n c.ck_dg)) l)
 let show_store (s : vstore) : string =
   match s.vs_pending with
   | Some _ -> "~"
-  | None ->
-    if s.vs_cks = [] then "-" else
-    String.concat "," (List.map (fun (nm, c) -> hex_of_bytes nm ^ "=" ^ pad_hex 10 (hex_of_n c.ck_dg)) s.vs_cks)
+  | None -> show_dirl s.vs_cks
 let pad12 s = let w = 12 in if String.length s >= w then s else String.make (w - String.length s) '0' ^ s
 let obs r =
   let (a, b) = !st in
-  Printf.sprintf "%s %s %s %s %s" (res_str r) (pad12 (hex_of_n a.vs_val)) (pad12 (hex_of_n b.vs_val)) (show_store a) (show_store b)
+  Printf.sprintf "%s %s %s %s %s %s %s" (res_str r) (pad12 (hex_of_n a.vs_val)) (pad12 (hex_of_n b.vs_val)) (show_store a) (show_store b)
+    (show_dirl a.vs_remote) (show_dirl b.vs_remote)
 let on_store (s : string) (f : vstore -> vstore * vres) : vres =
   let (a, b) = !st in
   if s = "0" then (let (a', r) = f a in st := (a', b); r) else (let (b', r) = f b in st := (a, b'); r)
@@ -83,6 +85,13 @@ let () =
       let r = on_store s (fun x -> vstep x (OFinish ((if dg = "-" then N0 else n_of_hex dg), n_of_hex h))) in Printf.printf "%s\t%s\n" id (obs r)
     | id :: "TO" :: "R" :: s :: t :: i :: _ ->
       let r = on_store s (fun x -> vstep x (ORestore (n_of_hex t, n_of_hex i))) in Printf.printf "%s\t%s\n" id (obs r)
+    | id :: "TO" :: "M" :: s :: t :: i :: _ ->
+      let r = on_store s (fun x -> vstep x (ORestoreRemote (n_of_hex t, n_of_hex i))) in Printf.printf "%s\t%s\n" id (obs r)
+    | id :: "TO" :: "V" :: s :: t :: i :: _ ->
+      let (a, b) = !st in
+      let r = if s = "0" then (let (b', r) = vcopy_remote a b (n_of_hex t) (n_of_hex i) in st := (a, b'); r)
+              else (let (a', r) = vcopy_remote b a (n_of_hex t) (n_of_hex i) in st := (a', b); r) in
+      Printf.printf "%s\t%s\n" id (obs r)
     | id :: "TO" :: "S" :: s :: i :: _ -> let r = on_store s (fun x -> vstep x (OSetLatest (n_of_hex i))) in Printf.printf "%s\t%s\n" id (obs r)
     | id :: "TO" :: "O" :: s :: t :: i :: _ ->
       let r = on_store s (fun x -> vstep x (OLocalOK (n_of_hex t, n_of_hex i))) in Printf.printf "%s\t%s\n" id (obs r)
